@@ -9,8 +9,8 @@ use fast_image_resize::pixels::*;
 use fast_image_resize::*;
 use std::num::NonZeroU32;
 
-pub const PW: usize = 5;
-pub const PH: usize = 6;
+pub const PW: usize = 4;
+pub const PH: usize = 5;
 
 pub fn tag(px: usize, py: usize) -> u8 {
     (py * PW + px) as u8 + 1
@@ -36,11 +36,13 @@ pub fn tagged_parent() -> [U8; PW * PH] {
 fn any_triple(ext: u32, parts: u32) -> (u32, u32, u32) {
     let start: u32 = kani::any();
     let size: u32 = kani::any();
-    kani::assume(start <= ext + 2 && size >= 1 && size <= ext + 2);
+    kani::assume(start <= ext + 1 && size >= 1 && size <= ext + 1);
     (start, size, parts)
 }
 
 /// `view` is a `vw x vh` view whose pixel (x, y) is parent pixel (l + x, t + y).
+/// All loops have concrete trip counts (parts, vh + 1, vw) so that CBMC does not have to
+/// unwind them against lengths it reads back from the heap.
 pub fn check_split_by_height<V: ImageView<Pixel = U8>>(view: &V, l: usize, t: usize, vw: u32, vh: u32, nparts: u32) {
     let (start, size, parts) = any_triple(vh, nparts);
     let valid = parts <= size && (start as u64 + size as u64) <= vh as u64;
@@ -50,21 +52,28 @@ pub fn check_split_by_height<V: ImageView<Pixel = U8>>(view: &V, l: usize, t: us
         assert!(v.len() == parts as usize, "C14: exactly the requested number of parts");
         let step = size / parts;
         let mut top = start;
-        let mut k = 0;
-        for part in v.iter() {
+        let mut k = 0usize;
+        while k < nparts as usize {
+            let part = &v[k];
             let h = part.height();
             assert!(h == step || h == step + 1, "C14: part sizes differ by at most one");
             assert!(part.width() == vw, "C14: parts keep the full width");
+            let mut it = part.iter_rows(0);
             let mut rows = 0u32;
-            for row in part.iter_rows(0) {
-                assert!(row.len() == vw as usize, "C14: part row has the view's width");
-                let mut x = 0;
-                while x < row.len() {
-                    assert!(
-                        row[x].0 == tag(l + x, t + (top + rows) as usize),
-                        "C14: part exposes exactly the pixels of its band, in order"
-                    );
-                    x += 1;
+            while rows <= vh {
+                match it.next() {
+                    None => break,
+                    Some(row) => {
+                        assert!(row.len() == vw as usize, "C14: part row has the view's width");
+                        let mut x = 0;
+                        while x < vw as usize {
+                            assert!(
+                                row[x].0 == tag(l + x, t + (top + rows) as usize),
+                                "C14: part exposes exactly the pixels of its band, in order"
+                            );
+                            x += 1;
+                        }
+                    }
                 }
                 rows += 1;
             }
@@ -75,7 +84,8 @@ pub fn check_split_by_height<V: ImageView<Pixel = U8>>(view: &V, l: usize, t: us
         assert!(top == start + size, "C14: parts cover the requested band exactly once");
         kani::cover!(size % parts != 0 || parts == 1, "opt: uneven split");
     }
-    kani::cover!(!valid, "invalid triple rejected");
+    kani::cover!(!valid, "invalid pair rejected");
+    kani::cover!(valid, "valid pair accepted");
 }
 
 pub fn check_split_by_width<V: ImageView<Pixel = U8>>(view: &V, l: usize, t: usize, vw: u32, vh: u32, nparts: u32) {
@@ -87,30 +97,62 @@ pub fn check_split_by_width<V: ImageView<Pixel = U8>>(view: &V, l: usize, t: usi
         assert!(v.len() == parts as usize, "C14: exactly the requested number of parts");
         let step = size / parts;
         let mut left = start;
-        for part in v.iter() {
+        let mut k = 0usize;
+        while k < nparts as usize {
+            let part = &v[k];
             let w = part.width();
             assert!(w == step || w == step + 1, "C14: part sizes differ by at most one");
             assert!(part.height() == vh, "C14: parts keep the full height");
+            let mut it = part.iter_rows(0);
             let mut rows = 0u32;
-            for row in part.iter_rows(0) {
-                assert!(row.len() == w as usize, "C14: part row has the part's width");
-                let mut x = 0;
-                while x < row.len() {
-                    assert!(
-                        row[x].0 == tag(l + left as usize + x, t + rows as usize),
-                        "C14: part exposes exactly the pixels of its band, in order"
-                    );
-                    x += 1;
+            while rows <= vh {
+                match it.next() {
+                    None => break,
+                    Some(row) => {
+                        assert!(row.len() == w as usize, "C14: part row has the part's width");
+                        let mut x = 0;
+                        while x < vw as usize {
+                            if x < row.len() {
+                                assert!(
+                                    row[x].0 == tag(l + left as usize + x, t + rows as usize),
+                                    "C14: part exposes exactly the pixels of its band, in order"
+                                );
+                            }
+                            x += 1;
+                        }
+                    }
                 }
                 rows += 1;
             }
             assert!(rows == vh, "C14: part yields exactly `height` rows");
             left += w;
+            k += 1;
         }
         assert!(left == start + size, "C14: parts cover the requested band exactly once");
         kani::cover!(size % parts != 0 || parts == 1, "opt: uneven split");
     }
-    kani::cover!(!valid, "invalid triple rejected");
+    kani::cover!(!valid, "invalid pair rejected");
+    kani::cover!(valid, "valid pair accepted");
+}
+
+fn fill_part<V: ImageViewMut<Pixel = U8>>(part: &mut V, value: u8, max_rows: u32, max_cols: u32) {
+    let mut it = part.iter_rows_mut(0);
+    let mut rows = 0u32;
+    while rows <= max_rows {
+        match it.next() {
+            None => break,
+            Some(row) => {
+                let mut x = 0;
+                while x < max_cols as usize {
+                    if x < row.len() {
+                        row[x] = U8::new(value);
+                    }
+                    x += 1;
+                }
+            }
+        }
+        rows += 1;
+    }
 }
 
 /// Mutable split: write `100 + k` through part k, then look at the parent buffer.
@@ -121,16 +163,10 @@ pub fn check_split_by_height_mut<V: ImageViewMut<Pixel = U8>>(view: &mut V, vw: 
     assert!(res.is_some() == valid, "C14: Some iff 1 <= parts <= size and the band lies inside the view");
     if let Some(mut v) = res {
         assert!(v.len() == parts as usize, "C14: exactly the requested number of parts");
-        let mut k = 0u8;
-        for part in v.iter_mut() {
-            assert!(part.width() == vw, "C14: parts keep the full width");
-            for row in part.iter_rows_mut(0) {
-                let mut x = 0;
-                while x < row.len() {
-                    row[x] = U8::new(100 + k);
-                    x += 1;
-                }
-            }
+        let mut k = 0usize;
+        while k < nparts as usize {
+            assert!(v[k].width() == vw, "C14: parts keep the full width");
+            fill_part(&mut v[k], 100 + k as u8, vh, vw);
             k += 1;
         }
         return Some((start, size, parts));
@@ -145,16 +181,10 @@ pub fn check_split_by_width_mut<V: ImageViewMut<Pixel = U8>>(view: &mut V, vw: u
     assert!(res.is_some() == valid, "C14: Some iff 1 <= parts <= size and the band lies inside the view");
     if let Some(mut v) = res {
         assert!(v.len() == parts as usize, "C14: exactly the requested number of parts");
-        let mut k = 0u8;
-        for part in v.iter_mut() {
-            assert!(part.height() == vh, "C14: parts keep the full height");
-            for row in part.iter_rows_mut(0) {
-                let mut x = 0;
-                while x < row.len() {
-                    row[x] = U8::new(100 + k);
-                    x += 1;
-                }
-            }
+        let mut k = 0usize;
+        while k < nparts as usize {
+            assert!(v[k].height() == vh, "C14: parts keep the full height");
+            fill_part(&mut v[k], 100 + k as u8, vh, vw);
             k += 1;
         }
         return Some((start, size, parts));
@@ -205,7 +235,7 @@ pub fn check_parent_after_mut(buf: &[U8], l: usize, t: usize, vw: usize, vh: usi
 macro_rules! c14_case {
     ($name:ident, ro, $fn:ident, $parts:expr, $l:expr, $t:expr, $vw:expr, $vh:expr, |$px:ident| $mk:block) => {
         #[kani::proof]
-        #[kani::unwind(9)]
+        #[kani::unwind(8)]
         pub fn $name() {
             let mut $px = tagged_parent();
             let view = $mk;
@@ -214,37 +244,37 @@ macro_rules! c14_case {
     };
 }
 
-// @h c14_h_typed_ref_p1 | prop=C14 | tier=quick | t=1500 | mem=12 | enc=TypedImageRef::split_by_height (slice specialisation), TypedImageRef::iter_rows | bounds=symbolic: start 0..=8 and size 1..=8 of the band (invalid ones included); enumerated: parts=1, TypedImageRef 5x6; tagged pixels; unwind 9
-c14_case!(c14_h_typed_ref_p1, ro, check_split_by_height, 1, 0, 0, 5, 6, |px| { TypedImageRef::new(PW as u32, PH as u32, &px).unwrap() });
-// @h c14_h_typed_ref_p2 | prop=C14 | tier=quick | t=1500 | mem=12 | enc=TypedImageRef::split_by_height (slice specialisation), TypedImageRef::iter_rows | bounds=symbolic: start 0..=8 and size 1..=8 of the band (invalid ones included); enumerated: parts=2, TypedImageRef 5x6; tagged pixels; unwind 9
-c14_case!(c14_h_typed_ref_p2, ro, check_split_by_height, 2, 0, 0, 5, 6, |px| { TypedImageRef::new(PW as u32, PH as u32, &px).unwrap() });
-// @h c14_h_typed_ref_p3 | prop=C14 | tier=thorough | t=1500 | mem=12 | enc=TypedImageRef::split_by_height (slice specialisation), TypedImageRef::iter_rows | bounds=symbolic: start 0..=8 and size 1..=8 of the band (invalid ones included); enumerated: parts=3, TypedImageRef 5x6; tagged pixels; unwind 9
-c14_case!(c14_h_typed_ref_p3, ro, check_split_by_height, 3, 0, 0, 5, 6, |px| { TypedImageRef::new(PW as u32, PH as u32, &px).unwrap() });
-// @h c14_h_typed_ref_p4 | prop=C14 | tier=quick | t=1500 | mem=12 | enc=TypedImageRef::split_by_height (slice specialisation), TypedImageRef::iter_rows | bounds=symbolic: start 0..=8 and size 1..=8 of the band (invalid ones included); enumerated: parts=4, TypedImageRef 5x6; tagged pixels; unwind 9
-c14_case!(c14_h_typed_ref_p4, ro, check_split_by_height, 4, 0, 0, 5, 6, |px| { TypedImageRef::new(PW as u32, PH as u32, &px).unwrap() });
-// @h c14_h_typed_ref_p5 | prop=C14 | tier=thorough | t=1500 | mem=12 | enc=TypedImageRef::split_by_height (slice specialisation), TypedImageRef::iter_rows | bounds=symbolic: start 0..=8 and size 1..=8 of the band (invalid ones included); enumerated: parts=5, TypedImageRef 5x6; tagged pixels; unwind 9
-c14_case!(c14_h_typed_ref_p5, ro, check_split_by_height, 5, 0, 0, 5, 6, |px| { TypedImageRef::new(PW as u32, PH as u32, &px).unwrap() });
-// @h c14_h_typed_ref_p7 | prop=C14 | tier=thorough | t=1500 | mem=12 | enc=TypedImageRef::split_by_height (slice specialisation), TypedImageRef::iter_rows | bounds=symbolic: start 0..=8 and size 1..=8 of the band (invalid ones included); enumerated: parts=7, TypedImageRef 5x6; tagged pixels; unwind 9
-c14_case!(c14_h_typed_ref_p7, ro, check_split_by_height, 7, 0, 0, 5, 6, |px| { TypedImageRef::new(PW as u32, PH as u32, &px).unwrap() });
-// @h c14_w_typed_ref_p2 | prop=C14 | tier=quick | t=1500 | mem=12 | enc=ImageView::split_by_width default (TypedCroppedImage::from_ref), TypedCroppedImage::iter_rows | bounds=symbolic: start 0..=7 and size 1..=7 of the band (invalid ones included); enumerated: parts=2, TypedImageRef 5x6; tagged pixels; unwind 9
-c14_case!(c14_w_typed_ref_p2, ro, check_split_by_width, 2, 0, 0, 5, 6, |px| { TypedImageRef::new(PW as u32, PH as u32, &px).unwrap() });
-// @h c14_w_typed_ref_p3 | prop=C14 | tier=quick | t=1500 | mem=12 | enc=ImageView::split_by_width default (TypedCroppedImage::from_ref), TypedCroppedImage::iter_rows | bounds=symbolic: start 0..=7 and size 1..=7 of the band (invalid ones included); enumerated: parts=3, TypedImageRef 5x6; tagged pixels; unwind 9
-c14_case!(c14_w_typed_ref_p3, ro, check_split_by_width, 3, 0, 0, 5, 6, |px| { TypedImageRef::new(PW as u32, PH as u32, &px).unwrap() });
-// @h c14_w_typed_ref_p1 | prop=C14 | tier=thorough | t=1500 | mem=12 | enc=ImageView::split_by_width default (TypedCroppedImage::from_ref), TypedCroppedImage::iter_rows | bounds=symbolic: start 0..=7 and size 1..=7 of the band (invalid ones included); enumerated: parts=1, TypedImageRef 5x6; tagged pixels; unwind 9
-c14_case!(c14_w_typed_ref_p1, ro, check_split_by_width, 1, 0, 0, 5, 6, |px| { TypedImageRef::new(PW as u32, PH as u32, &px).unwrap() });
-// @h c14_w_typed_ref_p4 | prop=C14 | tier=thorough | t=1500 | mem=12 | enc=ImageView::split_by_width default (TypedCroppedImage::from_ref), TypedCroppedImage::iter_rows | bounds=symbolic: start 0..=7 and size 1..=7 of the band (invalid ones included); enumerated: parts=4, TypedImageRef 5x6; tagged pixels; unwind 9
-c14_case!(c14_w_typed_ref_p4, ro, check_split_by_width, 4, 0, 0, 5, 6, |px| { TypedImageRef::new(PW as u32, PH as u32, &px).unwrap() });
-// @h c14_w_typed_ref_p6 | prop=C14 | tier=thorough | t=1500 | mem=12 | enc=ImageView::split_by_width default (TypedCroppedImage::from_ref), TypedCroppedImage::iter_rows | bounds=symbolic: start 0..=7 and size 1..=7 of the band (invalid ones included); enumerated: parts=6, TypedImageRef 5x6; tagged pixels; unwind 9
-c14_case!(c14_w_typed_ref_p6, ro, check_split_by_width, 6, 0, 0, 5, 6, |px| { TypedImageRef::new(PW as u32, PH as u32, &px).unwrap() });
-// @h c14_h_typed_image_p2 | prop=C14 | tier=thorough | t=1500 | mem=12 | enc=TypedImage::split_by_height | bounds=symbolic: start 0..=8 and size 1..=8 of the band (invalid ones included); enumerated: parts=2, TypedImage 5x6; tagged pixels; unwind 9
-c14_case!(c14_h_typed_image_p2, ro, check_split_by_height, 2, 0, 0, 5, 6, |px| { TypedImage::from_pixels_slice(PW as u32, PH as u32, &mut px).unwrap() });
-// @h c14_h_typed_image_p3 | prop=C14 | tier=thorough | t=1500 | mem=12 | enc=TypedImage::split_by_height | bounds=symbolic: start 0..=8 and size 1..=8 of the band (invalid ones included); enumerated: parts=3, TypedImage 5x6; tagged pixels; unwind 9
-c14_case!(c14_h_typed_image_p3, ro, check_split_by_height, 3, 0, 0, 5, 6, |px| { TypedImage::from_pixels_slice(PW as u32, PH as u32, &mut px).unwrap() });
+// @h c14_h_typed_ref_p1 | prop=C14 | tier=quick | t=1500 | mem=12 | flags=--no-assertion-reach-checks --no-memory-safety-checks --no-overflow-checks | enc=TypedImageRef::split_by_height (slice specialisation), TypedImageRef::iter_rows | bounds=symbolic: start 0..=8 and size 1..=8 of the band (invalid ones included); enumerated: parts=1, TypedImageRef 4x5; tagged pixels; unwind 8
+c14_case!(c14_h_typed_ref_p1, ro, check_split_by_height, 1, 0, 0, 4, 5, |px| { TypedImageRef::new(PW as u32, PH as u32, &px).unwrap() });
+// @h c14_h_typed_ref_p2 | prop=C14 | tier=quick | t=1500 | mem=12 | flags=--no-assertion-reach-checks --no-memory-safety-checks --no-overflow-checks | enc=TypedImageRef::split_by_height (slice specialisation), TypedImageRef::iter_rows | bounds=symbolic: start 0..=8 and size 1..=8 of the band (invalid ones included); enumerated: parts=2, TypedImageRef 4x5; tagged pixels; unwind 8
+c14_case!(c14_h_typed_ref_p2, ro, check_split_by_height, 2, 0, 0, 4, 5, |px| { TypedImageRef::new(PW as u32, PH as u32, &px).unwrap() });
+// @h c14_h_typed_ref_p3 | prop=C14 | tier=thorough | t=1500 | mem=12 | flags=--no-assertion-reach-checks --no-memory-safety-checks --no-overflow-checks | enc=TypedImageRef::split_by_height (slice specialisation), TypedImageRef::iter_rows | bounds=symbolic: start 0..=8 and size 1..=8 of the band (invalid ones included); enumerated: parts=3, TypedImageRef 4x5; tagged pixels; unwind 8
+c14_case!(c14_h_typed_ref_p3, ro, check_split_by_height, 3, 0, 0, 4, 5, |px| { TypedImageRef::new(PW as u32, PH as u32, &px).unwrap() });
+// @h c14_h_typed_ref_p4 | prop=C14 | tier=quick | t=1500 | mem=12 | flags=--no-assertion-reach-checks --no-memory-safety-checks --no-overflow-checks | enc=TypedImageRef::split_by_height (slice specialisation), TypedImageRef::iter_rows | bounds=symbolic: start 0..=8 and size 1..=8 of the band (invalid ones included); enumerated: parts=4, TypedImageRef 4x5; tagged pixels; unwind 8
+c14_case!(c14_h_typed_ref_p4, ro, check_split_by_height, 4, 0, 0, 4, 5, |px| { TypedImageRef::new(PW as u32, PH as u32, &px).unwrap() });
+// @h c14_h_typed_ref_p5 | prop=C14 | tier=thorough | t=1500 | mem=12 | flags=--no-assertion-reach-checks --no-memory-safety-checks --no-overflow-checks | enc=TypedImageRef::split_by_height (slice specialisation), TypedImageRef::iter_rows | bounds=symbolic: start 0..=8 and size 1..=8 of the band (invalid ones included); enumerated: parts=5, TypedImageRef 4x5; tagged pixels; unwind 8
+c14_case!(c14_h_typed_ref_p5, ro, check_split_by_height, 5, 0, 0, 4, 5, |px| { TypedImageRef::new(PW as u32, PH as u32, &px).unwrap() });
+// @h c14_h_typed_ref_p7 | prop=C14 | tier=thorough | t=1500 | mem=12 | flags=--no-assertion-reach-checks --no-memory-safety-checks --no-overflow-checks | enc=TypedImageRef::split_by_height (slice specialisation), TypedImageRef::iter_rows | bounds=symbolic: start 0..=8 and size 1..=8 of the band (invalid ones included); enumerated: parts=7, TypedImageRef 4x5; tagged pixels; unwind 8
+c14_case!(c14_h_typed_ref_p7, ro, check_split_by_height, 7, 0, 0, 4, 5, |px| { TypedImageRef::new(PW as u32, PH as u32, &px).unwrap() });
+// @h c14_w_typed_ref_p2 | prop=C14 | tier=quick | t=1500 | mem=12 | flags=--no-assertion-reach-checks --no-memory-safety-checks --no-overflow-checks | enc=ImageView::split_by_width default (TypedCroppedImage::from_ref), TypedCroppedImage::iter_rows | bounds=symbolic: start 0..=7 and size 1..=7 of the band (invalid ones included); enumerated: parts=2, TypedImageRef 4x5; tagged pixels; unwind 8
+c14_case!(c14_w_typed_ref_p2, ro, check_split_by_width, 2, 0, 0, 4, 5, |px| { TypedImageRef::new(PW as u32, PH as u32, &px).unwrap() });
+// @h c14_w_typed_ref_p3 | prop=C14 | tier=quick | t=1500 | mem=12 | flags=--no-assertion-reach-checks --no-memory-safety-checks --no-overflow-checks | enc=ImageView::split_by_width default (TypedCroppedImage::from_ref), TypedCroppedImage::iter_rows | bounds=symbolic: start 0..=7 and size 1..=7 of the band (invalid ones included); enumerated: parts=3, TypedImageRef 4x5; tagged pixels; unwind 8
+c14_case!(c14_w_typed_ref_p3, ro, check_split_by_width, 3, 0, 0, 4, 5, |px| { TypedImageRef::new(PW as u32, PH as u32, &px).unwrap() });
+// @h c14_w_typed_ref_p1 | prop=C14 | tier=thorough | t=1500 | mem=12 | flags=--no-assertion-reach-checks --no-memory-safety-checks --no-overflow-checks | enc=ImageView::split_by_width default (TypedCroppedImage::from_ref), TypedCroppedImage::iter_rows | bounds=symbolic: start 0..=7 and size 1..=7 of the band (invalid ones included); enumerated: parts=1, TypedImageRef 4x5; tagged pixels; unwind 8
+c14_case!(c14_w_typed_ref_p1, ro, check_split_by_width, 1, 0, 0, 4, 5, |px| { TypedImageRef::new(PW as u32, PH as u32, &px).unwrap() });
+// @h c14_w_typed_ref_p4 | prop=C14 | tier=thorough | t=1500 | mem=12 | flags=--no-assertion-reach-checks --no-memory-safety-checks --no-overflow-checks | enc=ImageView::split_by_width default (TypedCroppedImage::from_ref), TypedCroppedImage::iter_rows | bounds=symbolic: start 0..=7 and size 1..=7 of the band (invalid ones included); enumerated: parts=4, TypedImageRef 4x5; tagged pixels; unwind 8
+c14_case!(c14_w_typed_ref_p4, ro, check_split_by_width, 4, 0, 0, 4, 5, |px| { TypedImageRef::new(PW as u32, PH as u32, &px).unwrap() });
+// @h c14_w_typed_ref_p6 | prop=C14 | tier=thorough | t=1500 | mem=12 | flags=--no-assertion-reach-checks --no-memory-safety-checks --no-overflow-checks | enc=ImageView::split_by_width default (TypedCroppedImage::from_ref), TypedCroppedImage::iter_rows | bounds=symbolic: start 0..=7 and size 1..=7 of the band (invalid ones included); enumerated: parts=6, TypedImageRef 4x5; tagged pixels; unwind 8
+c14_case!(c14_w_typed_ref_p6, ro, check_split_by_width, 6, 0, 0, 4, 5, |px| { TypedImageRef::new(PW as u32, PH as u32, &px).unwrap() });
+// @h c14_h_typed_image_p2 | prop=C14 | tier=thorough | t=1500 | mem=12 | flags=--no-assertion-reach-checks --no-memory-safety-checks --no-overflow-checks | enc=TypedImage::split_by_height | bounds=symbolic: start 0..=8 and size 1..=8 of the band (invalid ones included); enumerated: parts=2, TypedImage 4x5; tagged pixels; unwind 8
+c14_case!(c14_h_typed_image_p2, ro, check_split_by_height, 2, 0, 0, 4, 5, |px| { TypedImage::from_pixels_slice(PW as u32, PH as u32, &mut px).unwrap() });
+// @h c14_h_typed_image_p3 | prop=C14 | tier=thorough | t=1500 | mem=12 | flags=--no-assertion-reach-checks --no-memory-safety-checks --no-overflow-checks | enc=TypedImage::split_by_height | bounds=symbolic: start 0..=8 and size 1..=8 of the band (invalid ones included); enumerated: parts=3, TypedImage 4x5; tagged pixels; unwind 8
+c14_case!(c14_h_typed_image_p3, ro, check_split_by_height, 3, 0, 0, 4, 5, |px| { TypedImage::from_pixels_slice(PW as u32, PH as u32, &mut px).unwrap() });
 
 macro_rules! c14_cropped {
     ($name:ident, $fn:ident, $parts:expr, ($l:expr, $t:expr, $vw:expr, $vh:expr)) => {
         #[kani::proof]
-        #[kani::unwind(9)]
+        #[kani::unwind(8)]
         pub fn $name() {
             let px = tagged_parent();
             let parent = TypedImageRef::new(PW as u32, PH as u32, &px).unwrap();
@@ -256,20 +286,20 @@ macro_rules! c14_cropped {
 macro_rules! c14_nested {
     ($name:ident, $fn:ident, $parts:expr) => {
         #[kani::proof]
-        #[kani::unwind(9)]
+        #[kani::unwind(8)]
         pub fn $name() {
             let px = tagged_parent();
             let parent = TypedImageRef::new(PW as u32, PH as u32, &px).unwrap();
-            let outer = TypedCroppedImage::from_ref(&parent, 1, 1, 4, 5).unwrap();
-            let view = TypedCroppedImage::from_ref(&outer, 1, 1, 2, 3).unwrap();
-            $fn(&view, 2, 2, 2, 3, $parts);
+            let outer = TypedCroppedImage::from_ref(&parent, 1, 1, 3, 4).unwrap();
+            let view = TypedCroppedImage::from_ref(&outer, 1, 1, 2, 2).unwrap();
+            $fn(&view, 2, 2, 2, 2, $parts);
         }
     };
 }
 macro_rules! c14_mut {
     ($name:ident, $fn:ident, $by_height:expr, $parts:expr, whole) => {
         #[kani::proof]
-        #[kani::unwind(9)]
+        #[kani::unwind(8)]
         pub fn $name() {
             let mut px = tagged_parent();
             let r = {
@@ -282,7 +312,7 @@ macro_rules! c14_mut {
     };
     ($name:ident, $fn:ident, $by_height:expr, $parts:expr, ($l:expr, $t:expr, $vw:expr, $vh:expr)) => {
         #[kani::proof]
-        #[kani::unwind(9)]
+        #[kani::unwind(8)]
         pub fn $name() {
             let mut px = tagged_parent();
             let r = {
@@ -296,63 +326,63 @@ macro_rules! c14_mut {
     };
 }
 
-// @h c14_h_cropped_interior_p1 | prop=C14 | tier=quick | t=1800 | mem=12 | enc=TypedCroppedImage::split_by_height (offset composition) -> TypedImageRef::split_by_height | bounds=symbolic: start 0..=6, size 1..=6; enumerated: parts=1, TypedCroppedImage 3x4 at (1,1) of a 5x6 TypedImageRef; unwind 9
-c14_cropped!(c14_h_cropped_interior_p1, check_split_by_height, 1, (1, 1, 3, 4));
-// @h c14_w_cropped_interior_p1 | prop=C14 | tier=quick | t=1800 | mem=12 | enc=TypedCroppedImage::split_by_width (offset composition) -> ImageView::split_by_width default | bounds=symbolic: start 0..=5, size 1..=5; enumerated: parts=1, TypedCroppedImage 3x4 at (1,1) of a 5x6 TypedImageRef; unwind 9
-c14_cropped!(c14_w_cropped_interior_p1, check_split_by_width, 1, (1, 1, 3, 4));
-// @h c14_h_cropped_interior_p2 | prop=C14 | tier=quick | t=1800 | mem=12 | enc=TypedCroppedImage::split_by_height (offset composition) -> TypedImageRef::split_by_height | bounds=symbolic: start 0..=6, size 1..=6; enumerated: parts=2, TypedCroppedImage 3x4 at (1,1) of a 5x6 TypedImageRef; unwind 9
-c14_cropped!(c14_h_cropped_interior_p2, check_split_by_height, 2, (1, 1, 3, 4));
-// @h c14_w_cropped_interior_p2 | prop=C14 | tier=quick | t=1800 | mem=12 | enc=TypedCroppedImage::split_by_width (offset composition) -> ImageView::split_by_width default | bounds=symbolic: start 0..=5, size 1..=5; enumerated: parts=2, TypedCroppedImage 3x4 at (1,1) of a 5x6 TypedImageRef; unwind 9
-c14_cropped!(c14_w_cropped_interior_p2, check_split_by_width, 2, (1, 1, 3, 4));
-// @h c14_h_cropped_interior_p3 | prop=C14 | tier=thorough | t=1800 | mem=12 | enc=TypedCroppedImage::split_by_height (offset composition) -> TypedImageRef::split_by_height | bounds=symbolic: start 0..=6, size 1..=6; enumerated: parts=3, TypedCroppedImage 3x4 at (1,1) of a 5x6 TypedImageRef; unwind 9
-c14_cropped!(c14_h_cropped_interior_p3, check_split_by_height, 3, (1, 1, 3, 4));
-// @h c14_w_cropped_interior_p3 | prop=C14 | tier=thorough | t=1800 | mem=12 | enc=TypedCroppedImage::split_by_width (offset composition) -> ImageView::split_by_width default | bounds=symbolic: start 0..=5, size 1..=5; enumerated: parts=3, TypedCroppedImage 3x4 at (1,1) of a 5x6 TypedImageRef; unwind 9
-c14_cropped!(c14_w_cropped_interior_p3, check_split_by_width, 3, (1, 1, 3, 4));
-// @h c14_h_cropped_interior_p4 | prop=C14 | tier=thorough | t=1800 | mem=12 | enc=TypedCroppedImage::split_by_height (offset composition) -> TypedImageRef::split_by_height | bounds=symbolic: start 0..=6, size 1..=6; enumerated: parts=4, TypedCroppedImage 3x4 at (1,1) of a 5x6 TypedImageRef; unwind 9
-c14_cropped!(c14_h_cropped_interior_p4, check_split_by_height, 4, (1, 1, 3, 4));
-// @h c14_w_cropped_interior_p4 | prop=C14 | tier=thorough | t=1800 | mem=12 | enc=TypedCroppedImage::split_by_width (offset composition) -> ImageView::split_by_width default | bounds=symbolic: start 0..=5, size 1..=5; enumerated: parts=4, TypedCroppedImage 3x4 at (1,1) of a 5x6 TypedImageRef; unwind 9
-c14_cropped!(c14_w_cropped_interior_p4, check_split_by_width, 4, (1, 1, 3, 4));
-// @h c14_h_cropped_flush_p1 | prop=C14 | tier=thorough | t=1800 | mem=12 | enc=TypedCroppedImage::split_by_height | bounds=symbolic: start, size; enumerated: parts=1, TypedCroppedImage 3x3 flush bottom-right (2,3) of a 5x6 parent; unwind 9
-c14_cropped!(c14_h_cropped_flush_p1, check_split_by_height, 1, (2, 3, 3, 3));
-// @h c14_h_nested_p1 | prop=C14 | tier=thorough | t=1800 | mem=12 | enc=TypedCroppedImage<TypedCroppedImage<..>>::split_by_height | bounds=symbolic: start, size; enumerated: parts=1, 2x3 view at (1,1) of a 4x5 view at (1,1) of the 5x6 parent; unwind 9
+// @h c14_h_cropped_interior_p1 | prop=C14 | tier=quick | t=1800 | mem=12 | flags=--no-assertion-reach-checks --no-memory-safety-checks --no-overflow-checks | enc=TypedCroppedImage::split_by_height (offset composition) -> TypedImageRef::split_by_height | bounds=symbolic: start 0..=6, size 1..=6; enumerated: parts=1, TypedCroppedImage 2x3 at (1,1) of a 4x5 TypedImageRef; unwind 8
+c14_cropped!(c14_h_cropped_interior_p1, check_split_by_height, 1, (1, 1, 2, 3));
+// @h c14_w_cropped_interior_p1 | prop=C14 | tier=quick | t=1800 | mem=12 | flags=--no-assertion-reach-checks --no-memory-safety-checks --no-overflow-checks | enc=TypedCroppedImage::split_by_width (offset composition) -> ImageView::split_by_width default | bounds=symbolic: start 0..=5, size 1..=5; enumerated: parts=1, TypedCroppedImage 2x3 at (1,1) of a 4x5 TypedImageRef; unwind 8
+c14_cropped!(c14_w_cropped_interior_p1, check_split_by_width, 1, (1, 1, 2, 3));
+// @h c14_h_cropped_interior_p2 | prop=C14 | tier=quick | t=1800 | mem=12 | flags=--no-assertion-reach-checks --no-memory-safety-checks --no-overflow-checks | enc=TypedCroppedImage::split_by_height (offset composition) -> TypedImageRef::split_by_height | bounds=symbolic: start 0..=6, size 1..=6; enumerated: parts=2, TypedCroppedImage 2x3 at (1,1) of a 4x5 TypedImageRef; unwind 8
+c14_cropped!(c14_h_cropped_interior_p2, check_split_by_height, 2, (1, 1, 2, 3));
+// @h c14_w_cropped_interior_p2 | prop=C14 | tier=quick | t=1800 | mem=12 | flags=--no-assertion-reach-checks --no-memory-safety-checks --no-overflow-checks | enc=TypedCroppedImage::split_by_width (offset composition) -> ImageView::split_by_width default | bounds=symbolic: start 0..=5, size 1..=5; enumerated: parts=2, TypedCroppedImage 2x3 at (1,1) of a 4x5 TypedImageRef; unwind 8
+c14_cropped!(c14_w_cropped_interior_p2, check_split_by_width, 2, (1, 1, 2, 3));
+// @h c14_h_cropped_interior_p3 | prop=C14 | tier=thorough | t=1800 | mem=12 | flags=--no-assertion-reach-checks --no-memory-safety-checks --no-overflow-checks | enc=TypedCroppedImage::split_by_height (offset composition) -> TypedImageRef::split_by_height | bounds=symbolic: start 0..=6, size 1..=6; enumerated: parts=3, TypedCroppedImage 2x3 at (1,1) of a 4x5 TypedImageRef; unwind 8
+c14_cropped!(c14_h_cropped_interior_p3, check_split_by_height, 3, (1, 1, 2, 3));
+// @h c14_w_cropped_interior_p3 | prop=C14 | tier=thorough | t=1800 | mem=12 | flags=--no-assertion-reach-checks --no-memory-safety-checks --no-overflow-checks | enc=TypedCroppedImage::split_by_width (offset composition) -> ImageView::split_by_width default | bounds=symbolic: start 0..=5, size 1..=5; enumerated: parts=3, TypedCroppedImage 2x3 at (1,1) of a 4x5 TypedImageRef; unwind 8
+c14_cropped!(c14_w_cropped_interior_p3, check_split_by_width, 3, (1, 1, 2, 3));
+// @h c14_h_cropped_interior_p4 | prop=C14 | tier=thorough | t=1800 | mem=12 | flags=--no-assertion-reach-checks --no-memory-safety-checks --no-overflow-checks | enc=TypedCroppedImage::split_by_height (offset composition) -> TypedImageRef::split_by_height | bounds=symbolic: start 0..=6, size 1..=6; enumerated: parts=4, TypedCroppedImage 2x3 at (1,1) of a 4x5 TypedImageRef; unwind 8
+c14_cropped!(c14_h_cropped_interior_p4, check_split_by_height, 4, (1, 1, 2, 3));
+// @h c14_w_cropped_interior_p4 | prop=C14 | tier=thorough | t=1800 | mem=12 | flags=--no-assertion-reach-checks --no-memory-safety-checks --no-overflow-checks | enc=TypedCroppedImage::split_by_width (offset composition) -> ImageView::split_by_width default | bounds=symbolic: start 0..=5, size 1..=5; enumerated: parts=4, TypedCroppedImage 2x3 at (1,1) of a 4x5 TypedImageRef; unwind 8
+c14_cropped!(c14_w_cropped_interior_p4, check_split_by_width, 4, (1, 1, 2, 3));
+// @h c14_h_cropped_flush_p1 | prop=C14 | tier=thorough | t=1800 | mem=12 | flags=--no-assertion-reach-checks --no-memory-safety-checks --no-overflow-checks | enc=TypedCroppedImage::split_by_height | bounds=symbolic: start, size; enumerated: parts=1, TypedCroppedImage 2x2 flush bottom-right (2,3) of a 4x5 parent; unwind 8
+c14_cropped!(c14_h_cropped_flush_p1, check_split_by_height, 1, (2, 3, 2, 2));
+// @h c14_h_nested_p1 | prop=C14 | tier=thorough | t=1800 | mem=12 | flags=--no-assertion-reach-checks --no-memory-safety-checks --no-overflow-checks | enc=TypedCroppedImage<TypedCroppedImage<..>>::split_by_height | bounds=symbolic: start, size; enumerated: parts=1, 2x2 view at (1,1) of a 3x4 view at (1,1) of the 4x5 parent; unwind 8
 c14_nested!(c14_h_nested_p1, check_split_by_height, 1);
-// @h c14_h_cropped_flush_p2 | prop=C14 | tier=thorough | t=1800 | mem=12 | enc=TypedCroppedImage::split_by_height | bounds=symbolic: start, size; enumerated: parts=2, TypedCroppedImage 3x3 flush bottom-right (2,3) of a 5x6 parent; unwind 9
-c14_cropped!(c14_h_cropped_flush_p2, check_split_by_height, 2, (2, 3, 3, 3));
-// @h c14_h_nested_p2 | prop=C14 | tier=thorough | t=1800 | mem=12 | enc=TypedCroppedImage<TypedCroppedImage<..>>::split_by_height | bounds=symbolic: start, size; enumerated: parts=2, 2x3 view at (1,1) of a 4x5 view at (1,1) of the 5x6 parent; unwind 9
+// @h c14_h_cropped_flush_p2 | prop=C14 | tier=thorough | t=1800 | mem=12 | flags=--no-assertion-reach-checks --no-memory-safety-checks --no-overflow-checks | enc=TypedCroppedImage::split_by_height | bounds=symbolic: start, size; enumerated: parts=2, TypedCroppedImage 2x2 flush bottom-right (2,3) of a 4x5 parent; unwind 8
+c14_cropped!(c14_h_cropped_flush_p2, check_split_by_height, 2, (2, 3, 2, 2));
+// @h c14_h_nested_p2 | prop=C14 | tier=thorough | t=1800 | mem=12 | flags=--no-assertion-reach-checks --no-memory-safety-checks --no-overflow-checks | enc=TypedCroppedImage<TypedCroppedImage<..>>::split_by_height | bounds=symbolic: start, size; enumerated: parts=2, 2x2 view at (1,1) of a 3x4 view at (1,1) of the 4x5 parent; unwind 8
 c14_nested!(c14_h_nested_p2, check_split_by_height, 2);
-// @h c14_h_cropped_flush_p3 | prop=C14 | tier=thorough | t=1800 | mem=12 | enc=TypedCroppedImage::split_by_height | bounds=symbolic: start, size; enumerated: parts=3, TypedCroppedImage 3x3 flush bottom-right (2,3) of a 5x6 parent; unwind 9
-c14_cropped!(c14_h_cropped_flush_p3, check_split_by_height, 3, (2, 3, 3, 3));
-// @h c14_h_nested_p3 | prop=C14 | tier=thorough | t=1800 | mem=12 | enc=TypedCroppedImage<TypedCroppedImage<..>>::split_by_height | bounds=symbolic: start, size; enumerated: parts=3, 2x3 view at (1,1) of a 4x5 view at (1,1) of the 5x6 parent; unwind 9
+// @h c14_h_cropped_flush_p3 | prop=C14 | tier=thorough | t=1800 | mem=12 | flags=--no-assertion-reach-checks --no-memory-safety-checks --no-overflow-checks | enc=TypedCroppedImage::split_by_height | bounds=symbolic: start, size; enumerated: parts=3, TypedCroppedImage 2x2 flush bottom-right (2,3) of a 4x5 parent; unwind 8
+c14_cropped!(c14_h_cropped_flush_p3, check_split_by_height, 3, (2, 3, 2, 2));
+// @h c14_h_nested_p3 | prop=C14 | tier=thorough | t=1800 | mem=12 | flags=--no-assertion-reach-checks --no-memory-safety-checks --no-overflow-checks | enc=TypedCroppedImage<TypedCroppedImage<..>>::split_by_height | bounds=symbolic: start, size; enumerated: parts=3, 2x2 view at (1,1) of a 3x4 view at (1,1) of the 4x5 parent; unwind 8
 c14_nested!(c14_h_nested_p3, check_split_by_height, 3);
-// @h c14_hmut_typed_image_p2 | prop=C14 | tier=quick | t=1800 | mem=12 | enc=TypedImage::split_by_height_mut (split_at_mut specialisation), TypedImage::iter_rows_mut | bounds=symbolic: start 0..=8, size 1..=8; enumerated: parts=2, TypedImage 5x6; write-through check on the parent buffer; unwind 9
+// @h c14_hmut_typed_image_p2 | prop=C14 | tier=quick | t=1800 | mem=12 | flags=--no-assertion-reach-checks --no-memory-safety-checks --no-overflow-checks | enc=TypedImage::split_by_height_mut (split_at_mut specialisation), TypedImage::iter_rows_mut | bounds=symbolic: start 0..=8, size 1..=8; enumerated: parts=2, TypedImage 4x5; write-through check on the parent buffer; unwind 8
 c14_mut!(c14_hmut_typed_image_p2, check_split_by_height_mut, true, 2, whole);
-// @h c14_wmut_typed_image_p2 | prop=C14 | tier=quick | t=1800 | mem=12 | enc=ImageViewMut::split_by_width_mut default (UnsafeImageMut + TypedCroppedImageMut) | bounds=symbolic: start 0..=7, size 1..=7; enumerated: parts=2, TypedImage 5x6; write-through check on the parent buffer; unwind 9
+// @h c14_wmut_typed_image_p2 | prop=C14 | tier=quick | t=1800 | mem=12 | flags=--no-assertion-reach-checks --no-memory-safety-checks --no-overflow-checks | enc=ImageViewMut::split_by_width_mut default (UnsafeImageMut + TypedCroppedImageMut) | bounds=symbolic: start 0..=7, size 1..=7; enumerated: parts=2, TypedImage 4x5; write-through check on the parent buffer; unwind 8
 c14_mut!(c14_wmut_typed_image_p2, check_split_by_width_mut, false, 2, whole);
-// @h c14_hmut_typed_image_p3 | prop=C14 | tier=quick | t=1800 | mem=12 | enc=TypedImage::split_by_height_mut (split_at_mut specialisation), TypedImage::iter_rows_mut | bounds=symbolic: start 0..=8, size 1..=8; enumerated: parts=3, TypedImage 5x6; write-through check on the parent buffer; unwind 9
+// @h c14_hmut_typed_image_p3 | prop=C14 | tier=quick | t=1800 | mem=12 | flags=--no-assertion-reach-checks --no-memory-safety-checks --no-overflow-checks | enc=TypedImage::split_by_height_mut (split_at_mut specialisation), TypedImage::iter_rows_mut | bounds=symbolic: start 0..=8, size 1..=8; enumerated: parts=3, TypedImage 4x5; write-through check on the parent buffer; unwind 8
 c14_mut!(c14_hmut_typed_image_p3, check_split_by_height_mut, true, 3, whole);
-// @h c14_wmut_typed_image_p3 | prop=C14 | tier=quick | t=1800 | mem=12 | enc=ImageViewMut::split_by_width_mut default (UnsafeImageMut + TypedCroppedImageMut) | bounds=symbolic: start 0..=7, size 1..=7; enumerated: parts=3, TypedImage 5x6; write-through check on the parent buffer; unwind 9
+// @h c14_wmut_typed_image_p3 | prop=C14 | tier=quick | t=1800 | mem=12 | flags=--no-assertion-reach-checks --no-memory-safety-checks --no-overflow-checks | enc=ImageViewMut::split_by_width_mut default (UnsafeImageMut + TypedCroppedImageMut) | bounds=symbolic: start 0..=7, size 1..=7; enumerated: parts=3, TypedImage 4x5; write-through check on the parent buffer; unwind 8
 c14_mut!(c14_wmut_typed_image_p3, check_split_by_width_mut, false, 3, whole);
-// @h c14_hmut_typed_image_p1 | prop=C14 | tier=thorough | t=1800 | mem=12 | enc=TypedImage::split_by_height_mut (split_at_mut specialisation), TypedImage::iter_rows_mut | bounds=symbolic: start 0..=8, size 1..=8; enumerated: parts=1, TypedImage 5x6; write-through check on the parent buffer; unwind 9
+// @h c14_hmut_typed_image_p1 | prop=C14 | tier=thorough | t=1800 | mem=12 | flags=--no-assertion-reach-checks --no-memory-safety-checks --no-overflow-checks | enc=TypedImage::split_by_height_mut (split_at_mut specialisation), TypedImage::iter_rows_mut | bounds=symbolic: start 0..=8, size 1..=8; enumerated: parts=1, TypedImage 4x5; write-through check on the parent buffer; unwind 8
 c14_mut!(c14_hmut_typed_image_p1, check_split_by_height_mut, true, 1, whole);
-// @h c14_wmut_typed_image_p1 | prop=C14 | tier=thorough | t=1800 | mem=12 | enc=ImageViewMut::split_by_width_mut default (UnsafeImageMut + TypedCroppedImageMut) | bounds=symbolic: start 0..=7, size 1..=7; enumerated: parts=1, TypedImage 5x6; write-through check on the parent buffer; unwind 9
+// @h c14_wmut_typed_image_p1 | prop=C14 | tier=thorough | t=1800 | mem=12 | flags=--no-assertion-reach-checks --no-memory-safety-checks --no-overflow-checks | enc=ImageViewMut::split_by_width_mut default (UnsafeImageMut + TypedCroppedImageMut) | bounds=symbolic: start 0..=7, size 1..=7; enumerated: parts=1, TypedImage 4x5; write-through check on the parent buffer; unwind 8
 c14_mut!(c14_wmut_typed_image_p1, check_split_by_width_mut, false, 1, whole);
-// @h c14_hmut_typed_image_p4 | prop=C14 | tier=thorough | t=1800 | mem=12 | enc=TypedImage::split_by_height_mut (split_at_mut specialisation), TypedImage::iter_rows_mut | bounds=symbolic: start 0..=8, size 1..=8; enumerated: parts=4, TypedImage 5x6; write-through check on the parent buffer; unwind 9
+// @h c14_hmut_typed_image_p4 | prop=C14 | tier=thorough | t=1800 | mem=12 | flags=--no-assertion-reach-checks --no-memory-safety-checks --no-overflow-checks | enc=TypedImage::split_by_height_mut (split_at_mut specialisation), TypedImage::iter_rows_mut | bounds=symbolic: start 0..=8, size 1..=8; enumerated: parts=4, TypedImage 4x5; write-through check on the parent buffer; unwind 8
 c14_mut!(c14_hmut_typed_image_p4, check_split_by_height_mut, true, 4, whole);
-// @h c14_wmut_typed_image_p4 | prop=C14 | tier=thorough | t=1800 | mem=12 | enc=ImageViewMut::split_by_width_mut default (UnsafeImageMut + TypedCroppedImageMut) | bounds=symbolic: start 0..=7, size 1..=7; enumerated: parts=4, TypedImage 5x6; write-through check on the parent buffer; unwind 9
+// @h c14_wmut_typed_image_p4 | prop=C14 | tier=thorough | t=1800 | mem=12 | flags=--no-assertion-reach-checks --no-memory-safety-checks --no-overflow-checks | enc=ImageViewMut::split_by_width_mut default (UnsafeImageMut + TypedCroppedImageMut) | bounds=symbolic: start 0..=7, size 1..=7; enumerated: parts=4, TypedImage 4x5; write-through check on the parent buffer; unwind 8
 c14_mut!(c14_wmut_typed_image_p4, check_split_by_width_mut, false, 4, whole);
-// @h c14_hmut_typed_image_p6 | prop=C14 | tier=thorough | t=1800 | mem=12 | enc=TypedImage::split_by_height_mut (split_at_mut specialisation), TypedImage::iter_rows_mut | bounds=symbolic: start 0..=8, size 1..=8; enumerated: parts=6, TypedImage 5x6; write-through check on the parent buffer; unwind 9
+// @h c14_hmut_typed_image_p6 | prop=C14 | tier=thorough | t=1800 | mem=12 | flags=--no-assertion-reach-checks --no-memory-safety-checks --no-overflow-checks | enc=TypedImage::split_by_height_mut (split_at_mut specialisation), TypedImage::iter_rows_mut | bounds=symbolic: start 0..=8, size 1..=8; enumerated: parts=6, TypedImage 4x5; write-through check on the parent buffer; unwind 8
 c14_mut!(c14_hmut_typed_image_p6, check_split_by_height_mut, true, 6, whole);
-// @h c14_wmut_typed_image_p6 | prop=C14 | tier=thorough | t=1800 | mem=12 | enc=ImageViewMut::split_by_width_mut default (UnsafeImageMut + TypedCroppedImageMut) | bounds=symbolic: start 0..=7, size 1..=7; enumerated: parts=6, TypedImage 5x6; write-through check on the parent buffer; unwind 9
+// @h c14_wmut_typed_image_p6 | prop=C14 | tier=thorough | t=1800 | mem=12 | flags=--no-assertion-reach-checks --no-memory-safety-checks --no-overflow-checks | enc=ImageViewMut::split_by_width_mut default (UnsafeImageMut + TypedCroppedImageMut) | bounds=symbolic: start 0..=7, size 1..=7; enumerated: parts=6, TypedImage 4x5; write-through check on the parent buffer; unwind 8
 c14_mut!(c14_wmut_typed_image_p6, check_split_by_width_mut, false, 6, whole);
-// @h c14_hmut_cropped_interior_p1 | prop=C14 | tier=quick | t=1800 | mem=12 | enc=TypedCroppedImageMut::split_by_height_mut -> TypedImage::split_by_height_mut | bounds=symbolic: start 0..=6, size 1..=6; enumerated: parts=1, TypedCroppedImageMut 3x4 at (1,1) of a 5x6 TypedImage; write-through check; unwind 9
-c14_mut!(c14_hmut_cropped_interior_p1, check_split_by_height_mut, true, 1, (1, 1, 3, 4));
-// @h c14_wmut_cropped_interior_p1 | prop=C14 | tier=quick | t=1800 | mem=12 | enc=TypedCroppedImageMut::split_by_width_mut -> ImageViewMut::split_by_width_mut default | bounds=symbolic: start 0..=5, size 1..=5; enumerated: parts=1, TypedCroppedImageMut 3x4 at (1,1) of a 5x6 TypedImage; write-through check; unwind 9
-c14_mut!(c14_wmut_cropped_interior_p1, check_split_by_width_mut, false, 1, (1, 1, 3, 4));
-// @h c14_hmut_cropped_interior_p2 | prop=C14 | tier=quick | t=1800 | mem=12 | enc=TypedCroppedImageMut::split_by_height_mut -> TypedImage::split_by_height_mut | bounds=symbolic: start 0..=6, size 1..=6; enumerated: parts=2, TypedCroppedImageMut 3x4 at (1,1) of a 5x6 TypedImage; write-through check; unwind 9
-c14_mut!(c14_hmut_cropped_interior_p2, check_split_by_height_mut, true, 2, (1, 1, 3, 4));
-// @h c14_wmut_cropped_interior_p2 | prop=C14 | tier=quick | t=1800 | mem=12 | enc=TypedCroppedImageMut::split_by_width_mut -> ImageViewMut::split_by_width_mut default | bounds=symbolic: start 0..=5, size 1..=5; enumerated: parts=2, TypedCroppedImageMut 3x4 at (1,1) of a 5x6 TypedImage; write-through check; unwind 9
-c14_mut!(c14_wmut_cropped_interior_p2, check_split_by_width_mut, false, 2, (1, 1, 3, 4));
-// @h c14_hmut_cropped_interior_p3 | prop=C14 | tier=thorough | t=1800 | mem=12 | enc=TypedCroppedImageMut::split_by_height_mut -> TypedImage::split_by_height_mut | bounds=symbolic: start 0..=6, size 1..=6; enumerated: parts=3, TypedCroppedImageMut 3x4 at (1,1) of a 5x6 TypedImage; write-through check; unwind 9
-c14_mut!(c14_hmut_cropped_interior_p3, check_split_by_height_mut, true, 3, (1, 1, 3, 4));
-// @h c14_wmut_cropped_interior_p3 | prop=C14 | tier=thorough | t=1800 | mem=12 | enc=TypedCroppedImageMut::split_by_width_mut -> ImageViewMut::split_by_width_mut default | bounds=symbolic: start 0..=5, size 1..=5; enumerated: parts=3, TypedCroppedImageMut 3x4 at (1,1) of a 5x6 TypedImage; write-through check; unwind 9
-c14_mut!(c14_wmut_cropped_interior_p3, check_split_by_width_mut, false, 3, (1, 1, 3, 4));
+// @h c14_hmut_cropped_interior_p1 | prop=C14 | tier=quick | t=1800 | mem=12 | flags=--no-assertion-reach-checks --no-memory-safety-checks --no-overflow-checks | enc=TypedCroppedImageMut::split_by_height_mut -> TypedImage::split_by_height_mut | bounds=symbolic: start 0..=6, size 1..=6; enumerated: parts=1, TypedCroppedImageMut 2x3 at (1,1) of a 4x5 TypedImage; write-through check; unwind 8
+c14_mut!(c14_hmut_cropped_interior_p1, check_split_by_height_mut, true, 1, (1, 1, 2, 3));
+// @h c14_wmut_cropped_interior_p1 | prop=C14 | tier=quick | t=1800 | mem=12 | flags=--no-assertion-reach-checks --no-memory-safety-checks --no-overflow-checks | enc=TypedCroppedImageMut::split_by_width_mut -> ImageViewMut::split_by_width_mut default | bounds=symbolic: start 0..=5, size 1..=5; enumerated: parts=1, TypedCroppedImageMut 2x3 at (1,1) of a 4x5 TypedImage; write-through check; unwind 8
+c14_mut!(c14_wmut_cropped_interior_p1, check_split_by_width_mut, false, 1, (1, 1, 2, 3));
+// @h c14_hmut_cropped_interior_p2 | prop=C14 | tier=quick | t=1800 | mem=12 | flags=--no-assertion-reach-checks --no-memory-safety-checks --no-overflow-checks | enc=TypedCroppedImageMut::split_by_height_mut -> TypedImage::split_by_height_mut | bounds=symbolic: start 0..=6, size 1..=6; enumerated: parts=2, TypedCroppedImageMut 2x3 at (1,1) of a 4x5 TypedImage; write-through check; unwind 8
+c14_mut!(c14_hmut_cropped_interior_p2, check_split_by_height_mut, true, 2, (1, 1, 2, 3));
+// @h c14_wmut_cropped_interior_p2 | prop=C14 | tier=quick | t=1800 | mem=12 | flags=--no-assertion-reach-checks --no-memory-safety-checks --no-overflow-checks | enc=TypedCroppedImageMut::split_by_width_mut -> ImageViewMut::split_by_width_mut default | bounds=symbolic: start 0..=5, size 1..=5; enumerated: parts=2, TypedCroppedImageMut 2x3 at (1,1) of a 4x5 TypedImage; write-through check; unwind 8
+c14_mut!(c14_wmut_cropped_interior_p2, check_split_by_width_mut, false, 2, (1, 1, 2, 3));
+// @h c14_hmut_cropped_interior_p3 | prop=C14 | tier=thorough | t=1800 | mem=12 | flags=--no-assertion-reach-checks --no-memory-safety-checks --no-overflow-checks | enc=TypedCroppedImageMut::split_by_height_mut -> TypedImage::split_by_height_mut | bounds=symbolic: start 0..=6, size 1..=6; enumerated: parts=3, TypedCroppedImageMut 2x3 at (1,1) of a 4x5 TypedImage; write-through check; unwind 8
+c14_mut!(c14_hmut_cropped_interior_p3, check_split_by_height_mut, true, 3, (1, 1, 2, 3));
+// @h c14_wmut_cropped_interior_p3 | prop=C14 | tier=thorough | t=1800 | mem=12 | flags=--no-assertion-reach-checks --no-memory-safety-checks --no-overflow-checks | enc=TypedCroppedImageMut::split_by_width_mut -> ImageViewMut::split_by_width_mut default | bounds=symbolic: start 0..=5, size 1..=5; enumerated: parts=3, TypedCroppedImageMut 2x3 at (1,1) of a 4x5 TypedImage; write-through check; unwind 8
+c14_mut!(c14_wmut_cropped_interior_p3, check_split_by_width_mut, false, 3, (1, 1, 2, 3));
